@@ -193,7 +193,11 @@ void run_script(const Script& sc, bool check, bool& nontrivial, Sched sched_for_
     if (A.queued && B.queued) contention = true;
     if (!(A.queued && B.queued && A.chan == dk::VALUE && B.chan == dk::VALUE && A.t_stop_req < 0 && B.t_stop_req < 0)) continue;
     if (A.t_start_end < B.t_start_begin && A.t_grant > B.t_grant) {
-      if (sc.variant == 2) cx.fail(P, "fifo_order", "async_lock #%zu queued (start returned at %ld) before #%zu began to start (%ld) but was granted later (%ld > %ld)", a, A.t_start_end, b, B.t_start_begin, A.t_grant, B.t_grant);
+      // "queued" means: start() returned before the completion.  With the worker-context scheduler every grant is delivered through a
+      // scheduler hop, so an async_lock that took the free mutex on its fast path (never a waiter) also looks queued; such a newcomer may
+      // legitimately get the mutex ahead of a waiter that enqueued while the previous holder was releasing.  The order oracle therefore
+      // needs the inline scheduler, where a fast-path acquisition completes inside start().
+      if (sc.variant == 2 && !sc.use_ctx) cx.fail(P, "fifo_order", "async_lock #%zu queued (start returned at %ld) before #%zu began to start (%ld) but was granted later (%ld > %ld)", a, A.t_start_end, b, B.t_start_begin, A.t_grant, B.t_grant);
       else cx.label("v1-non-fifo-grant(observed, not asserted)");
     }
   }
